@@ -24,7 +24,7 @@ type c09Case struct {
 	IOSeed  uint64    `json:"ioseed"`
 	Fill    int       `json:"fill"`
 	IOFill  int       `json:"iofill"`
-	Pokes   [][2]int  `json:"pokes"` // extra memory bytes (addr, value), e.g. the CPIR hit
+	Pokes   [][2]int  `json:"pokes"`            // extra memory bytes (addr, value), e.g. the CPIR hit
 	NilIO   bool      `json:"nil_io,omitempty"` // no I/O device attached (port reads give 0, writes vanish)
 	// MaskedPending: a maskable request is pending and refused (IFF1 = 0) during the whole operation; it must
 	// neither change the operation nor get lost
@@ -38,9 +38,9 @@ type c09Spec struct {
 	steps  int
 	post   ref.State
 	fmask  uint8
-	writes []uint16    // addresses written (final values in shadow)
+	writes []uint16     // addresses written (final values in shadow)
 	ports  []bus.Access // expected port log
-	self   bool        // a write lands on the instruction bytes: closed form not applicable
+	self   bool         // a write lands on the instruction bytes: closed form not applicable
 }
 
 func c09Name(op int) string {
